@@ -195,3 +195,6 @@ func Read(p []byte) (int, error) {
 	mu.Unlock()
 	return mrand.Read(p)
 }
+
+// DrawCount reports how many draws were served from the owned stream since Own.
+func DrawCount() int { mu.Lock(); defer mu.Unlock(); return len(Draws) }
